@@ -4,16 +4,19 @@
 //! (own definedness / reachability / cycle analysis, own bit-parallel evaluator).
 //!
 //! Case line:
-//!   renumber cfg=<t><h><f> inputs=<l,..|-> latches=<state:next:init,..|-> gates=<out:in0:in1,..|->
-//!            outputs=.. bad=.. constraints=.. justice=<l,..;l,..|-> (empty group `e`) fairness=..
+//!   renumber cfg=<t><h><f> [ty=<u8|u16|u32|u64|usize>] inputs=<l,..|-> latches=<state:next:init,..|->
+//!            gates=<out:in0:in1,..|-> outputs=.. bad=.. constraints=.. justice=<l,..;l,..|-> (empty
+//!            group `e`) fairness=..      `ty` = the literal type `L` of `Aig<L>` (default `usize`); every
+//!            code of the case fits the type; codes are printed as numbers whatever the type
 //!   renumber deep=<chain|cycle> n=<N>     (implementation only, small native stack)
 //!   renumber cfg=<t><h><f> ni=<N> nl=<N> ord=.. num=.. pol=.. gs=<gate segments> ln=.. outputs=.. ..
 //!            [big=1]     scale case (`--opt scale`): circuit given by a generator spec, see the
 //!                        section "scale cases" below; observation = digest of the full one
 use crate::common::*;
 use flussab_aiger::aig::{
-    Aig, AigStructureError, AndGate, Latch, OrderedAig, Renumber, RenumberConfig,
+    Aig, AigStructureError, AndGate, Latch, OrderedAig, OrderedAndGate, OrderedLatch, Renumber, RenumberConfig,
 };
+use flussab_aiger::Lit;
 use std::collections::{HashMap, HashSet};
 use std::sync::atomic::{AtomicUsize, Ordering};
 
@@ -119,6 +122,12 @@ fn config(c: Cfg) -> RenumberConfig {
 }
 
 impl Net {
+    /// The case line; `ty` = literal type (`""` = the default, `usize`: no field).
+    fn line_ty(&self, cfg: Cfg, ty: &str) -> String {
+        let l = self.line(cfg);
+        if ty.is_empty() { l } else { l.replacen(" inputs=", &format!(" ty={} inputs=", ty), 1) }
+    }
+
     fn line(&self, cfg: Cfg) -> String {
         let latches = if self.latches.is_empty() {
             "-".to_string()
@@ -205,24 +214,27 @@ impl Net {
         m
     }
 
-    fn to_aig(&self) -> Aig<usize> {
+    fn to_aig<L: Lit>(&self) -> Aig<L> {
+        let max = self.max_code();
+        assert!(max <= L::MAX_CODE, "case has code {} beyond the literal type's {}", max, L::MAX_CODE);
+        let l = |x: usize| L::from_code(x);
         Aig {
-            max_var_index: self.max_code() / 2,
-            inputs: self.inputs.clone(),
+            max_var_index: max / 2,
+            inputs: self.inputs.iter().map(|&x| l(x)).collect(),
             latches: self
                 .latches
                 .iter()
-                .map(|&(state, next_state, initialization)| Latch { state, next_state, initialization })
+                .map(|&(state, next_state, initialization)| Latch { state: l(state), next_state: l(next_state), initialization })
                 .collect(),
-            outputs: self.outputs.clone(),
-            bad_state_properties: self.bad.clone(),
-            invariant_constraints: self.constraints.clone(),
-            justice_properties: self.justice.clone(),
-            fairness_constraints: self.fairness.clone(),
+            outputs: self.outputs.iter().map(|&x| l(x)).collect(),
+            bad_state_properties: self.bad.iter().map(|&x| l(x)).collect(),
+            invariant_constraints: self.constraints.iter().map(|&x| l(x)).collect(),
+            justice_properties: self.justice.iter().map(|g| g.iter().map(|&x| l(x)).collect()).collect(),
+            fairness_constraints: self.fairness.iter().map(|&x| l(x)).collect(),
             and_gates: self
                 .gates
                 .iter()
-                .map(|&(output, a, b)| AndGate { inputs: [a, b], output })
+                .map(|&(output, a, b)| AndGate { inputs: [l(a), l(b)], output: l(output) })
                 .collect(),
             symbols: vec![],
             comment: None,
@@ -248,13 +260,34 @@ impl Net {
 
 // ------------------------------------------------------------------------------------ observation
 
-fn err_kind(e: &AigStructureError<usize>) -> (&'static str, usize) {
+fn err_kind<L: Lit>(e: &AigStructureError<L>) -> (&'static str, usize) {
     match e {
-        AigStructureError::LitAlreadyDefined { lit } => ("LitAlreadyDefined", *lit),
-        AigStructureError::LitNotDefined { lit } => ("LitNotDefined", *lit),
-        AigStructureError::FoundCycle { lit } => ("FoundCycle", *lit),
+        AigStructureError::LitAlreadyDefined { lit } => ("LitAlreadyDefined", lit.code()),
+        AigStructureError::LitNotDefined { lit } => ("LitNotDefined", lit.code()),
+        AigStructureError::FoundCycle { lit } => ("FoundCycle", lit.code()),
     }
 }
+
+/// The result with codes as plain numbers (what the observation and the oracle work on).
+fn ordered_codes<L: Lit>(o: &OrderedAig<L>) -> OrderedAig<usize> {
+    let c = |l: &L| l.code();
+    OrderedAig {
+        max_var_index: o.max_var_index,
+        input_count: o.input_count,
+        latches: o.latches.iter().map(|l| OrderedLatch { next_state: l.next_state.code(), initialization: l.initialization }).collect(),
+        outputs: o.outputs.iter().map(c).collect(),
+        bad_state_properties: o.bad_state_properties.iter().map(c).collect(),
+        invariant_constraints: o.invariant_constraints.iter().map(c).collect(),
+        justice_properties: o.justice_properties.iter().map(|g| g.iter().map(c).collect()).collect(),
+        fairness_constraints: o.fairness_constraints.iter().map(c).collect(),
+        and_gates: o.and_gates.iter().map(|g| OrderedAndGate { inputs: [g.inputs[0].code(), g.inputs[1].code()] }).collect(),
+        symbols: o.symbols.clone(),
+        comment: o.comment.clone(),
+    }
+}
+
+/// `lit_map().get` on codes: `None` for a code the literal type cannot represent.
+type MapGet<'a> = &'a dyn Fn(usize) -> Option<usize>;
 
 fn show_ordered(o: &OrderedAig<usize>) -> String {
     let ls = if o.latches.is_empty() {
@@ -290,19 +323,20 @@ fn show_ordered(o: &OrderedAig<usize>) -> String {
 }
 
 /// `LitMap` has no iterator: probe every even code that could be a key.
-fn map_entries(net: &Net, ren: &Renumber<usize>) -> Vec<(usize, usize)> {
-    let top = (net.max_code() | 1) + 2;
+fn map_entries(net: &Net, get: MapGet) -> Vec<(usize, usize)> {
+    let top = (net.max_code() | 1).saturating_add(2);
     let mut out = vec![];
     if top <= 1 << 24 {
         let mut k = 0;
         while k <= top {
-            if let Some(v) = ren.lit_map().get(k) {
+            if let Some(v) = get(k) {
                 out.push((k, v));
             }
             k += 2;
         }
     } else {
-        // hand-written cases with astronomically large codes: only defining literals can be keys
+        // cases with astronomically large codes (the top of a wide literal type): only defining
+        // literals can be keys
         let mut cand: Vec<usize> = vec![0];
         cand.extend(net.inputs.iter().map(|&x| x & !1));
         cand.extend(net.latches.iter().map(|l| l.0 & !1));
@@ -310,7 +344,7 @@ fn map_entries(net: &Net, ren: &Renumber<usize>) -> Vec<(usize, usize)> {
         cand.sort_unstable();
         cand.dedup();
         for k in cand {
-            if let Some(v) = ren.lit_map().get(k) {
+            if let Some(v) = get(k) {
                 out.push((k, v));
             }
         }
@@ -520,7 +554,7 @@ fn check_ok(
     defs: &VMap<Def>,
     an: &Analysis,
     ord: &OrderedAig<usize>,
-    ren: &Renumber<usize>,
+    map: MapGet,
     entries: &[(usize, usize)],
     fails: &mut Fails,
 ) {
@@ -601,19 +635,18 @@ fn check_ok(
             break;
         }
     }
-    let map = ren.lit_map();
-    if map.get(0) != Some(0) {
-        fails.push(format!("C12: order: lit_map[0] = {:?}", map.get(0)));
+    if map(0) != Some(0) {
+        fails.push(format!("C12: order: lit_map[0] = {:?}", map(0)));
     }
     for (i, &l) in net.inputs.iter().enumerate() {
-        if map.get(l) != Some(2 * (i + 1)) {
-            fails.push(format!("C12: order: input {} (lit {}) mapped to {:?}", i, l, map.get(l)));
+        if map(l) != Some(2 * (i + 1)) {
+            fails.push(format!("C12: order: input {} (lit {}) mapped to {:?}", i, l, map(l)));
             break;
         }
     }
     for (j, l) in net.latches.iter().enumerate() {
-        if map.get(l.0) != Some(2 * (ni + 1 + j)) {
-            fails.push(format!("C12: order: latch {} (lit {}) mapped to {:?}", j, l.0, map.get(l.0)));
+        if map(l.0) != Some(2 * (ni + 1 + j)) {
+            fails.push(format!("C12: order: latch {} (lit {}) mapped to {:?}", j, l.0, map(l.0)));
             break;
         }
     }
@@ -622,8 +655,8 @@ fn check_ok(
             fails.push(format!("C12: order: lit_map[{}] = {} exceeds 2*max_var_index+1 = {}", k, v, top));
             break;
         }
-        if map.get(k ^ 1) != Some(v ^ 1) {
-            fails.push(format!("C12: order: lit_map[{}] = {:?} is not the negation of lit_map[{}] = {}", k ^ 1, map.get(k ^ 1), k, v));
+        if map(k ^ 1) != Some(v ^ 1) {
+            fails.push(format!("C12: order: lit_map[{}] = {:?} is not the negation of lit_map[{}] = {}", k ^ 1, map(k ^ 1), k, v));
             break;
         }
     }
@@ -691,7 +724,7 @@ fn check_ok(
         }
         for &(k, v) in entries {
             for s in 0..2 {
-                let (k, v) = (k ^ s, map.get(k ^ s).unwrap_or(v ^ s));
+                let (k, v) = (k ^ s, map(k ^ s).unwrap_or(v ^ s));
                 if !old.contains_key(&(k / 2)) {
                     continue; // reported by the trim check
                 }
@@ -728,11 +761,25 @@ pub fn run_case(line: &str) -> (String, Vec<String>) {
         // scale case: the circuit is described by a generator spec (see `expand_spec`)
         let (net, cfg) = expand_spec(&f);
         let big = f.opt("big") == Some("1");
-        return run_net(line, &net, cfg, if big { Obs::Brief } else { Obs::Digest });
+        return run_net_ty(f.opt("ty"), line, &net, cfg, if big { Obs::Brief } else { Obs::Digest });
     }
     let cfg = parse_cfg(f.get("cfg"));
     let net = Net::parse(&f);
-    run_net(line, &net, cfg, Obs::Full)
+    run_net_ty(f.opt("ty"), line, &net, cfg, Obs::Full)
+}
+
+/// Literal types a case can name, with their largest code.
+pub const TYPES: &[(&str, u64)] = &[("u8", u8::MAX as u64), ("u16", u16::MAX as u64), ("u32", u32::MAX as u64), ("u64", u64::MAX), ("usize", u64::MAX)];
+
+fn run_net_ty(ty: Option<&str>, line: &str, net: &Net, cfg: Cfg, mode: Obs) -> (String, Vec<String>) {
+    match ty.unwrap_or("usize") {
+        "u8" => run_net::<u8>(line, net, cfg, mode),
+        "u16" => run_net::<u16>(line, net, cfg, mode),
+        "u32" => run_net::<u32>(line, net, cfg, mode),
+        "u64" => run_net::<u64>(line, net, cfg, mode),
+        "usize" => run_net::<usize>(line, net, cfg, mode),
+        t => panic!("bad literal type {}", t),
+    }
 }
 
 /// How the successful result is rendered: in full, as `#len:fnv64` of the full text (scale cases
@@ -744,17 +791,28 @@ enum Obs {
     Brief,
 }
 
-fn run_net(line: &str, net: &Net, cfg: Cfg, mode: Obs) -> (String, Vec<String>) {
-    let aig = net.to_aig();
+fn run_net<L: Lit>(line: &str, net: &Net, cfg: Cfg, mode: Obs) -> (String, Vec<String>) {
+    let aig = net.to_aig::<L>();
     let res = match catch(|| Renumber::renumber_aig(config(cfg), &aig)) {
         Some(r) => r,
         None => return ("panic".into(), vec!["C12: renumber_aig panicked".into()]),
     };
     drop(aig);
+    // codes as plain numbers from here on
+    let res: Result<(OrderedAig<usize>, Renumber<L>), (&'static str, usize)> = match res {
+        Ok((ord, ren)) => Ok((ordered_codes(&ord), ren)),
+        Err(e) => Err(err_kind(&e)),
+    };
+    let get = |k: usize| -> Option<usize> {
+        match &res {
+            Ok((_, ren)) if k <= L::MAX_CODE => ren.lit_map().get(L::from_code(k)).map(|l| l.code()),
+            _ => None,
+        }
+    };
     let mut entries = vec![];
     let obs = match &res {
-        Ok((ord, ren)) => {
-            entries = map_entries(net, ren);
+        Ok((ord, _)) => {
+            entries = map_entries(net, &get);
             match mode {
                 Obs::Full => format!("ok {} map={}", show_ordered(ord), show_map(&entries)),
                 Obs::Digest => {
@@ -771,10 +829,7 @@ fn run_net(line: &str, net: &Net, cfg: Cfg, mode: Obs) -> (String, Vec<String>) 
                 Obs::Brief => format!("ok M={} I={} G={}", ord.max_var_index, ord.input_count, ord.and_gates.len()),
             }
         }
-        Err(e) => {
-            let (k, l) = err_kind(e);
-            format!("err:{}:{}", k, l)
-        }
+        Err((k, l)) => format!("err:{}:{}", k, l),
     };
 
     let mut fails = Fails(vec![]);
@@ -783,7 +838,7 @@ fn run_net(line: &str, net: &Net, cfg: Cfg, mode: Obs) -> (String, Vec<String>) 
     if !dups.is_empty() {
         class = "dup".into();
         match &res {
-            Err(AigStructureError::LitAlreadyDefined { lit }) => {
+            Err(("LitAlreadyDefined", lit)) => {
                 if !dups.contains(&(lit / 2)) {
                     fails.push(format!("C12: error literal: {} reported as redefined but is defined once", lit));
                 }
@@ -802,14 +857,14 @@ fn run_net(line: &str, net: &Net, cfg: Cfg, mode: Obs) -> (String, Vec<String>) 
             let what = format!("undefined={} cycle={}", an.undefined as u8, an.cycle as u8);
             match &res {
                 Ok(_) => fails.push(format!("C12: ill-formed graph accepted ({})", what)),
-                Err(AigStructureError::LitNotDefined { lit }) => {
+                Err(("LitNotDefined", lit)) => {
                     if !an.undefined {
                         fails.push(format!("C12: wrong error kind {} ({})", obs, what));
                     } else if defs.contains_key(&(lit / 2)) || !an.reach.contains(&(lit / 2)) {
                         fails.push(format!("C12: error literal: {} is not a reachable undefined literal", lit));
                     }
                 }
-                Err(AigStructureError::FoundCycle { lit }) => {
+                Err(("FoundCycle", lit)) => {
                     if !an.cycle {
                         fails.push(format!("C12: wrong error kind {} ({})", obs, what));
                     } else if !an.reach.contains(&(lit / 2)) || !on_cycle(net, &defs, lit / 2) {
@@ -823,7 +878,7 @@ fn run_net(line: &str, net: &Net, cfg: Cfg, mode: Obs) -> (String, Vec<String>) 
             class = format!("wf {}", if n <= 6 { "exhaustive" } else { "random" });
             match &res {
                 Err(_) => fails.push(format!("C12: well-formed graph rejected: {}", obs)),
-                Ok((ord, ren)) => check_ok(line, net, cfg, &defs, &an, ord, ren, &entries, &mut fails),
+                Ok((ord, _)) => check_ok(line, net, cfg, &defs, &an, ord, &get, &entries, &mut fails),
             }
         }
     }
@@ -949,7 +1004,15 @@ fn lits(rng: &mut Rng, sig: &[usize], max: u64) -> Vec<usize> {
 
 /// A random graph, its configuration and the name of the ill-formed mutation applied to it.
 fn gen_net(rng: &mut Rng, thorough: bool) -> (Net, Cfg, &'static str) {
-    let nv = if rng.chance(1, 2) {
+    gen_net_sized(rng, thorough, None)
+}
+
+/// `fill = Some(v)`: exactly `v` variables and a numbering without holes (every variable of a
+/// narrow literal type is in use).
+fn gen_net_sized(rng: &mut Rng, thorough: bool, fill: Option<usize>) -> (Net, Cfg, &'static str) {
+    let nv = if let Some(v) = fill {
+        v as u64
+    } else if rng.chance(1, 2) {
         rng.range(1, 8)
     } else if thorough && rng.chance(1, 10) {
         rng.range(100, 2000)
@@ -971,7 +1034,7 @@ fn gen_net(rng: &mut Rng, thorough: bool) -> (Net, Cfg, &'static str) {
     let total = ni + nl + na;
 
     // arbitrary numbering with holes, unrelated to the topological order
-    let span = total + rng.below(total as u64 / 2 + 3) as usize;
+    let span = if fill.is_some() { total } else { total + rng.below(total as u64 / 2 + 3) as usize };
     let mut vars: Vec<usize> = (1..=span).collect();
     shuffle(rng, &mut vars);
     let free: Vec<usize> = vars[total..].to_vec();
@@ -1191,8 +1254,35 @@ pub fn gen_case(rng: &mut Rng, thorough: bool) -> String {
     if rng.chance(1, 500) {
         return deep_cases(false)[rng.below(2) as usize].clone();
     }
-    let (net, cfg, _mutation) = gen_net(rng, thorough);
-    net.line(cfg)
+    // The literal type: `usize` with small codes (no `ty` field) in two cases out of five; otherwise
+    // any of the five types, mostly with the numbering moved to the top of the type's range, so that
+    // the type's last variable (codes MAX_CODE - 1 / MAX_CODE) is an input, a latch, a gate output,
+    // a negated reference, a second definition or a dangling reference like any other variable;
+    // for `u8` sometimes with every one of the 127 variables in use.
+    if rng.chance(2, 5) {
+        let (net, cfg, _mutation) = gen_net(rng, thorough);
+        return net.line(cfg);
+    }
+    let (ty, maxcode) = *rng.pick(TYPES);
+    let maxvar = (maxcode / 2) as usize;
+    let fill = if ty == "u8" && rng.chance(1, 8) { Some(maxvar - rng.below(3) as usize) } else { None };
+    let (mut net, cfg, _mutation) = gen_net_sized(rng, thorough, fill);
+    let used = net.max_code() / 2;
+    if used > maxvar {
+        // does not fit the narrow type (a dangling reference beyond the last variable): as before
+        return net.line(cfg);
+    }
+    if used > 0 && rng.chance(3, 4) {
+        let slack = match rng.below(8) { 0 => 1, 1 => 2, 2 => rng.below((maxvar - used) as u64 + 1) as usize, _ => 0 };
+        let shift = 2 * (maxvar - used).saturating_sub(slack);
+        let mv = |x: &mut usize| if *x >= 2 { *x += shift; };
+        net.inputs.iter_mut().for_each(mv);
+        net.latches.iter_mut().for_each(|l| { mv(&mut l.0); mv(&mut l.1); });
+        net.gates.iter_mut().for_each(|g| { mv(&mut g.0); mv(&mut g.1); mv(&mut g.2); });
+        for l in [&mut net.outputs, &mut net.bad, &mut net.constraints, &mut net.fairness] { l.iter_mut().for_each(mv); }
+        net.justice.iter_mut().flatten().for_each(mv);
+    }
+    net.line_ty(cfg, ty)
 }
 
 // ------------------------------------------------------------------------------------ scale cases
